@@ -113,6 +113,27 @@ class PathCtx:
             return
         self.hyps.append(to_formula(cond))
 
+    def case(self, cond):
+        """context manager: a case hypothesis visible both to the obligations and to the term
+        simplifier (so that index terms are built for this case)"""
+        import contextlib
+        from .oblig import to_formula
+
+        @contextlib.contextmanager
+        def cm():
+            f = to_formula(cond)
+            nh, npc = len(self.hyps), len(self.interp.pc)
+            self.hyps.append(f)
+            self.interp.pc.append(f)
+            old_label = self.label
+            try:
+                yield
+            finally:
+                del self.hyps[nh:]
+                del self.interp.pc[npc:]
+                self.label = old_label
+        return cm()
+
     def skolem(self, name, lo, hi):
         """an arbitrary index lo <= i < hi"""
         from . import values as V
@@ -128,8 +149,10 @@ class PathCtx:
         if not self.check_divisors(replay):
             return False
         hyps = self.hyps + list(self.dom.facts) + [d != 0 for d in self.dom.divisors]
+        # congruence / index reasoning only needs the path condition (linear); the non-linear axiom
+        # instances and divisor hypotheses are kept for the final query
         r = discharge(self.dom, name, hyps, goal, timeout_ms=timeout_ms or (20000 if tc.tier == "thorough" else 10000),
-                      kind=tc.task.kind, extra=extra)
+                      kind=tc.task.kind, extra=extra, light_hyps=list(self.hyps))
         r.clause = clause
         r.replay = replay
         tc.results.append(r)
@@ -353,6 +376,34 @@ def run_check(prop, module, tier, seed):
         print("internal error: no tasks for %s" % prop)
         return 3
     done = run_tasks(tasks, prop, tier, seed)
+    # verdicts must not depend on machine load: tasks with an undecided obligation (time-out, or a
+    # counter-model over uninterpreted Sum/DTFT symbols, which may just mean a congruence lemma timed
+    # out) are re-run once, a few at a time, with solver budgets multiplied by 5
+    retry = []
+    for t in tasks:
+        d = done.get(t.name, {})
+        if d.get("timeout"):
+            retry.append(t)
+            continue
+        for r in d.get("results", []):
+            if r["status"] == "unknown" or (r["status"] == "refuted" and "uninterpreted" in (r.get("detail") or "")):
+                retry.append(t)
+                break
+    if retry:
+        import pyvc.z3dom as zd
+        old = zd.SCALE
+        zd.SCALE = old * 5
+        try:
+            for t in retry:
+                t.timeout = t.timeout * 5
+            done2 = run_tasks(retry, prop, tier, seed, nproc=4)
+        finally:
+            zd.SCALE = old
+        for t in retry:
+            d2 = done2.get(t.name)
+            if d2 is not None and "error" not in d2:
+                d2.setdefault("notes", []).append("task %s re-run with 5x solver budget" % t.name)
+                done[t.name] = d2
     results = []
     errors = []
     samples = []
